@@ -61,7 +61,7 @@ int main(int argc, char **argv) {
         static const int ambient[] = { 0, ENOENT, ERANGE, EINTR }; errno = ambient[n % 4];   /* the caller's ambient errno rotates: it must not matter */
         int r = snoopy_filterregistry_callByName("exclude_spawns_of", list);
         n++;
-        if ((r == SNOOPY_FILTER_DROP) != expect_drop) { bad++; if (shown++ < 20) for (char *q = list; *q; q++) if (*q == '\n') *q = '^'; printf("MISMATCH list=[%s] got=%s expected=%s\n", list, r == SNOOPY_FILTER_DROP ? "drop" : "pass", expect_drop ? "drop" : "pass"); }
+        if ((r == SNOOPY_FILTER_DROP) != expect_drop) { bad++; if (shown++ < 20) { for (char *q = list; *q; q++) if (*q == '\n' || *q == '\r') *q = '^'; printf("MISMATCH list=[%s] got=%s expected=%s\n", list, r == SNOOPY_FILTER_DROP ? "drop" : "pass", expect_drop ? "drop" : "pass"); } }
         free(list);
     }
     fclose(lf);
